@@ -117,7 +117,8 @@ def run(run):
         "Coq 8.16.1 kernel; vm_compute evaluates Model.Tree.wf (the well-formedness predicate) on every returned tree",
         "axioms: none",
         "the tree serialiser harness/implfns.py:_tree and the string abstraction (empty / contains placeholder)",
-        "the parser's handlers and the regex tokenizer are exercised, not modelled; only _parser_merge_str_children has a model",
+        "of the parser's handlers, _parser_merge_str_children and the table handlers have models (Model/Tree.v, Model/Tables.v; "
+        "the latter tied to the parser by C03's check); the other handlers and the regex tokenizer are exercised, not modelled",
     ]
     run.prove()
     rng = run.rng
